@@ -85,6 +85,18 @@
 (* archive" check that asks the descriptor for the size) makes TLC report  *)
 (* IndexExact violated for fdk = "less".                                   *)
 (*                                                                         *)
+(* Faults of the caller's file object ("Faults", SIZE_STRESS part 5).  The  *)
+(* file object handed to ArFile(fileobj=f) is the caller's: its seek / read *)
+(* / readline / tell may raise at any step of a call.  FaultOne / FaultLines*)
+(* transcribe what read() / readline() / readlines() leave behind when that *)
+(* happens (the exception leaves before __cur is assigned; the file object  *)
+(* is wherever it got to) and TLC checks that the model still refines the   *)
+(* reference, whose AFault says: the position is unchanged (one-step calls) *)
+(* or behind the k lines already consumed (readlines / iteration), nothing  *)
+(* else changed -- so that every later call is an ordinary one.  Negative   *)
+(* control (run in every check): CommitAfterRead = FALSE (the position is   *)
+(* committed BEFORE the underlying read has succeeded) violates Refines.    *)
+(*                                                                         *)
 (* This module is about ONE archive whose file does not change.  What      *)
 (* happens when the process opens several archives under the same path     *)
 (* name (file rewritten / renamed into place, earlier members left         *)
@@ -96,7 +108,8 @@ CONSTANTS Modes,           \* subset of {"shared", "byname"}
           ClampReadline, PadOdd, SeekFirst,
           IterYieldsAll,   \* TRUE: __iter__ as repaired (225a5e1); FALSE: the old single-line generator
           FdKinds,         \* subset of {"none", "same", "less", "more"}: what is underneath a shared file object
-          TrustFd          \* FALSE: the size of the descriptor is never consulted (the code); TRUE: negative control
+          TrustFd,         \* FALSE: the size of the descriptor is never consulted (the code); TRUE: negative control
+          CommitAfterRead  \* TRUE: __cur is taken from fp.tell() AFTER the underlying read (the code); FALSE: negative control
 
 VARIABLES arch, mode, fdk, pc, table, byname, cur, fp, ret
 
@@ -263,6 +276,25 @@ IIter(m) == IF IterYieldsAll THEN IRls(m)
 Iter(m) == LET n == Len(BLineSpans(D(m), pos[m])) IN
            AIter(m, IF IterSingleLine /\ ~IterYieldsAll THEN Lo(1, n) ELSE n) /\ IIter(m)
 Seek(m, off, wh) == ASeek(m, off, wh) /\ ISeek(m, off, wh)
+\* ---- the caller's file object raises during a call (see "Faults" in the header): at fp.seek(cur), at the
+\* underlying read / readline, or at the fp.tell() after it.  The exception leaves read() / readline() before
+\* `self.__cur = self.__fp.tell()` is assigned: __cur is unchanged, the file object is left wherever it got to.
+FaultPts == {"seek", "read", "tell"}
+OneSteps(m) == {RdStep(m, cur[m], fp[H(m)], n) : n \in RdSizes \cup {0}}
+               \cup {RlStep(m, cur[m], fp[H(m)], lim) : lim \in RlSizes \cup {-1}}
+FaultOne(m) == /\ AFault(m, "one", 0)
+               /\ \E pt \in FaultPts, r \in OneSteps(m) :
+                     IApply(m, IRes("x", <<>>, 0),
+                            IF CommitAfterRead \/ pt = "seek" THEN cur[m] ELSE r.cur,
+                            CASE pt = "seek" -> (IF fp[H(m)] < 0 THEN 0 ELSE fp[H(m)])
+                              [] pt = "read" -> P0(m, cur[m], fp[H(m)])
+                              [] pt = "tell" -> r.fp)
+\* readlines() / __iter__: k readline() calls succeeded (each committed its position), the next one raised
+RECURSIVE RlLoopK(_, _, _, _)
+RlLoopK(m, c, f, k) == IF k = 0 THEN [cur |-> c, fp |-> IF f < 0 THEN 0 ELSE f]
+                       ELSE LET r == RlStep(m, c, f, -1) IN RlLoopK(m, r.cur, r.fp, k - 1)
+FaultLines(m, k) == /\ AFault(m, "lines", k)
+                    /\ LET r == RlLoopK(m, cur[m], fp[H(m)], k) IN IApply(m, IRes("x", <<>>, 0), r.cur, r.fp)
 Tell(m)          == ATell(m)         /\ ITell(m)
 
 Next == \/ Global \/ Header \/ Skip
@@ -273,6 +305,8 @@ Next == \/ Global \/ Header \/ Skip
               \/ \E wh \in 0..2, off \in (0 - SeekMax)..SeekMax : Seek(m, off, wh)
               \/ \E h \in Hints : ReadLinesHint(m, h)
               \/ Iter(m)
+              \/ FaultOne(m)
+              \/ \E k \in 0..(MaxData + 1) : FaultLines(m, k)
 
 Spec == Init /\ [][Next]_vars
 \* ret, aret, aidx, am are outputs
